@@ -130,6 +130,19 @@ Proof.
 Qed.
 Print Assumptions C13_call_style_outside_signature_refuted.
 
+(* (a') the same configuration: ARGS reaches the body (with b=1, a=2), KWARGS_WITH_NONE ends in Python's TypeError *)
+Theorem C13_return_as_outside_signature_refuted : exists sg env dc is_async c,
+  self_guard nat sg dc c = true /\ names_fit nat sg dc c = false /\
+  snd (vrun nnone sg env (with_mode nat dc ARGS) is_async c) = FBody [(2, 1); (1, 2)] /\
+  snd (vrun nnone sg env (with_mode nat dc KWARGS_WITH_NONE) is_async c) = FRaise TypeErrorC None.
+Proof.
+  exists (mksig [(2, Some 5); (1, Some 0)] false), no_env,
+    {| d_params := [mkparam 1 [] true None None]; d_mode := ARGS; d_strict := false; d_ignore_input := false |},
+    false, {| c_args := []; c_kwargs := [(1, 1); (3, 2)] |}.
+  repeat split.
+Qed.
+Print Assumptions C13_return_as_outside_signature_refuted.
+
 (* (b) the name self by keyword: def f(self, a), Parameter a, strict: f(x, a=1) runs, f(self=x, a=1) raises *)
 Theorem C13_self_by_keyword_refuted : exists sg env dc is_async c c',
   Permutation (named_assignment nat sg c) (named_assignment nat sg c') /\ self_guard nat sg dc c' = false /\
